@@ -134,10 +134,10 @@ def finish(prop, tier, seed, tasks, results, wall, known):
         violations.append((name, rp, reproduced))
 
     # ---- verdict
-    if crashes:
-        code = 3
-    elif violations:
+    if violations:
         code = 1
+    elif crashes:
+        code = 3
     elif guard_msgs or errors:
         code = 3
     elif undecided or unsupported:
